@@ -19,6 +19,8 @@ macro_rules! dispatch {
             "C12" => $f(&props::hist3::C12, $($arg),*),
             "C21" => $f(&props::hist3::C21, $($arg),*),
             "C22" => $f(&props::hist3::C22, $($arg),*),
+            "C25" => $f(&props::pure::C25, $($arg),*),
+            "C26" => $f(&props::pure::C26, $($arg),*),
             other => {
                 eprintln!("unknown property {}", other);
                 std::process::exit(3)
